@@ -68,6 +68,7 @@ def eval_params(m, params):
 
 def _prepare(sc):
     comp = Compiler(sc.world)
+    comp.opaque_modules = getattr(sc, "opaque_modules", ())
     progs = [comp.compile_thread(tn, calls) for tn, calls in sc.threads]
     need = sum(longest_path(p) for p in progs) + getattr(sc, "loop_allowance", 0)
     depth = min(sc.depth, need) if sc.depth else need
@@ -97,6 +98,7 @@ def run_query(sc, kind, timeout_ms=150000):
     t0 = time.time()
     progs, depth = _prepare(sc)
     model = Model(sc.world, progs)
+    model.atomic_locks = getattr(sc, "atomic_locks", ())
     res = {"scenario": sc.name, "kind": kind, "depth": depth}
     if kind == "main":
         res.update({"threads": [tn for tn, _ in sc.threads], "instructions": sum(len(p.instrs) for p in progs),
@@ -158,7 +160,10 @@ def replay_real(sc, order, params, init, clock, expect_lines=None):
     sched = R.Sched(sc.files)
     real = sc.make_real(params, init, clock)
     for o in real.get("gate", []):
-        R.gate(sched, o)
+        if isinstance(o, tuple):
+            R.gate(sched, *o)
+        else:
+            R.gate(sched, o)
     s = R.run_schedule(sc.files, real["fns"], order, sched=sched)
     lines = {}
     for name, f, ln in s.log:
